@@ -383,6 +383,10 @@ def dense_form(rep, ctx, m, t, rule):
                 mapping[a] = cont.blocks[k]
             else:
                 missing.append(k)
+    imp_ = rk.imprecise_in_main(t["sx"], t["hk"])
+    if missing and imp_:
+        rep.inconc(rule, "%s:%s:blocks" % (rule, fn), "the coefficient blocks are written through a construct the interpreter cannot follow (%s): the stored polynomial is not derivable" % imp_[0], span(r["node"]))
+        return None
     if missing:
         rep.violation(rule, "%s:%s:blocks" % (rule, fn),
                       "%s reads coefficient block(s) %s that the accepted path of %s never writes" % (r["fn"], sorted(missing), fn), span(r["node"]))
